@@ -410,6 +410,19 @@ func main() {
 			}
 			items <- item{text: j, only: "json", typed: jsonTyped, class: "key-chain"}
 			items <- item{text: r, only: "ror2", typed: ror2Typed, class: "key-chain"}
+			// the same chains ending in an explicit null (a legal way to spell "absent"), alone and beside a sibling
+			for _, leaf := range []string{`null`, `[null]`, `{"a":null,"b":1}`, `{"b":1,"a":null}`} {
+				jn := leaf
+				for i := len(keys) - 1; i >= 0; i-- {
+					jn = fmt.Sprintf(`{%q:%s}`, keys[i], jn)
+				}
+				items <- item{text: jn, only: "json", typed: jsonTyped, class: "key-chain-null"}
+			}
+			var nullTree any
+			for i := len(keys) - 1; i >= 0; i-- {
+				nullTree = map[string]any{keys[i]: nullTree, "b": 1}
+			}
+			items <- item{any: &anyCase{"key-chain-null " + r, nullTree}, class: "any"}
 			var tree any = 1
 			for i := len(keys) - 1; i >= 0; i-- {
 				tree = map[string]any{keys[i]: tree}
